@@ -32,8 +32,13 @@ RULES = {
     "`wait(...)`) only waits and propagates errors - it never appends, extends or stores a future's result into a collection "
     "(the returned tensors are matched with the initializers by position, so the order of the collected results must not depend "
     "on which worker finishes first); positional results are gathered by iterating the list of futures in the order of submission",
+    "R10": "the concurrent path is given what the serial path is given: where a function of the writer calls the same module function at "
+    "several sites (directly or through `executor.submit(fn, …)`), an option of the enclosing function that one site forwards "
+    "(`alignment=alignment`, `align_threshold=align_threshold`) is forwarded by every site - a shard written by the pool without the "
+    "caller's `align_threshold` is laid out with the default, so its file and the recorded offsets differ from the serial save "
+    "(one reviewed exemption: the byte limit may travel as a shared budget object built from it)",
 }
-FLOORS = {"R1": 6, "R2": 3, "R3": 1, "R4": 2, "R5": 3, "R6": 1, "R7": 2, "R8": 4, "R9": 2}
+FLOORS = {"R1": 6, "R2": 3, "R3": 1, "R4": 2, "R5": 3, "R6": 1, "R7": 2, "R8": 4, "R9": 2, "R10": 6}
 EXPLANATION = (
     "Lock-set analysis over the external-data writer: which fields are touched under which `with`, pairing of "
     "acquire/release through try/finally, lock context of every call path from submitted functions to tensor "
@@ -636,7 +641,44 @@ def rule_r9(ctx):
     ctx.require(n >= 2, f"only {n} loops over futures found in the external-data writer")
 
 
+# option -> keyword that may stand in for it at a sibling site, with the reason
+_FORWARD_SUBSTITUTES = {"max_in_flight_bytes": ("_budget", "the shard driver builds one shared _ByteBudget from the limit and hands that to every shard")}
+
+
+def rule_r10(ctx):
+    import collections
+
+    mod = ctx.repo.module(ED)
+    n = 0
+    for f in mod.all_funcs:
+        if isinstance(f.node, ast.Lambda):
+            continue
+        sites = collections.defaultdict(list)
+        for c in calls_in(f):
+            d = dotted_of(c.func) or ""
+            callee = (dotted_of(c.args[0]) or "") if d.endswith(".submit") and c.args else d
+            g = mod.functions.get(callee.split(".")[-1]) if callee else None
+            if g is not None:
+                sites[g.name].append((c, {k.arg: k.value for k in c.keywords if k.arg}))
+        for name, calls in sites.items():
+            if len(calls) < 2:
+                continue
+            forwarded = {k for _c, kws in calls for k, v in kws.items() if isinstance(v, ast.Name) and v.id == k and k in f.params}
+            for opt in sorted(forwarded):
+                for c, kws in calls:
+                    n += 1
+                    sub = _FORWARD_SUBSTITUTES.get(opt)
+                    ok = opt in kws or (sub is not None and sub[0] in kws)
+                    ctx.check("R10", f"{f.local}: every call of {name} is given `{opt}`", ok, f, c,
+                              f"one call of {name} in {f.local} forwards the caller's `{opt}` and this one (`{norm(c)[:50]}…`) does not: the work done through this site uses the "
+                              f"default of `{opt}` - for the layout options the files written by the thread pool differ from those of the serial save",
+                              how="keywords that forward a parameter of the enclosing function, compared across all call sites of one callee (executor.submit included)",
+                              construct=f"{name} called without {opt}")
+    ctx.require(n >= 6, f"only {n} forwarded options at sibling call sites found in the external-data writer")
+
+
 def run(ctx):
+    rule_r10(ctx)
     rule_r9(ctx)
     rule_r8(ctx)
     _collect_lock_names(ctx)
